@@ -1014,6 +1014,7 @@ func Run(o *drv.Out) {
 	}
 	witness(o)
 	cacheWitnesses(o)
+	pendingIndexWitness(o)
 	for i := 0; i < nFsm; i++ {
 		keys, pfxs := fsmPool(o)
 		c := newCase(o, fmt.Sprintf("fsm-%d", i), keys, pfxs)
